@@ -15,6 +15,7 @@ structure Ops (α : Type) where
   abs : α → α
   log : α → α
   sqrt : α → α              -- `x ** 0.5`
+  sq : α → α                -- `x ** 2`
   ofNat : Nat → α
   pi : α
 
@@ -44,7 +45,7 @@ def interval (m : Method) (n p confidence : α) : α × α :=
   let estSucc := o.mul p n
   match m with
   | .agrestiCoull =>
-      let z2 := o.mul z z
+      let z2 := o.sq z
       let nPrime := o.add n z2
       let pPrime := o.mul (o.div (o.ofNat 1) nPrime) (o.add estSucc (o.mul (o.div (o.ofNat 1) (o.ofNat 2)) z2))
       let iv := o.mul z (o.sqrt (o.div (o.mul pPrime (o.sub (o.ofNat 1) pPrime)) nPrime))
@@ -53,8 +54,9 @@ def interval (m : Method) (n p confidence : α) : α × α :=
       let iv := o.mul z (o.sqrt (o.div (o.mul p (o.sub (o.ofNat 1) p)) n))
       (o.sub p iv, o.add p iv)
 
-/-- binary64 instance.  `z**2` is computed by CPython's `float_pow` through libm `pow`,
-    which is exact-rounded for squares on glibc, i.e. equal to `z*z`. -/
+/-- binary64 instance.  `z**2` and `x**0.5` go through libm `pow` exactly as CPython's
+    `float_pow` does (glibc's `pow` is not correctly rounded: `z**2 ≠ z*z` and
+    `x**0.5 ≠ sqrt x` for about one input in a thousand, so `pow` it must be). -/
 def floatOps : Ops Float where
   add := (· + ·)
   sub := (· - ·)
@@ -63,6 +65,7 @@ def floatOps : Ops Float where
   abs := Float.abs
   log := Float.log
   sqrt := fun x => Float.pow x 0.5
+  sq := fun x => Float.pow x 2.0
   ofNat := Float.ofNat
   pi := 3.141592653589793
 
@@ -72,9 +75,7 @@ def confidenceIntervalF (n p c : Float) (method : String) : Option (Float × Flo
   (parseMethod (lowerAscii method)).map fun m => interval floatOps m n p c
 
 def floatOfMantExp (m : Int) (e : Int) : Float :=
-  let f := Float.ofInt m
-  if e ≥ 0 then f * Float.ofScientific 1 false 0 * (Float.exp2 (Float.ofInt e))
-  else Float.scaleB f e
+  Float.scaleB (Float.ofInt m) e
 
 end Stats
 end Pyab
